@@ -293,6 +293,16 @@ func presUsersOfInterestOffline(uid types.Uid, subs []types.Subscription, what s
 			continue
 		}
 
+		// A P2P contact listens on his own 'me' topic: the subscription names the p2p topic, not the other user.
+		rcptTo := subs[i].Topic
+		if uid1, uid2, err := types.ParseP2P(rcptTo); err == nil {
+			if uid1 == uid {
+				rcptTo = uid2.UserId()
+			} else {
+				rcptTo = uid1.UserId()
+			}
+		}
+
 		globals.hub.routeSrv <- &ServerComMessage{
 			Pres: &MsgServerPres{
 				Topic:     notifyOn,
@@ -300,7 +310,7 @@ func presUsersOfInterestOffline(uid types.Uid, subs []types.Subscription, what s
 				Src:       uid.UserId(),
 				WantReply: false,
 			},
-			RcptTo: subs[i].Topic,
+			RcptTo: rcptTo,
 		}
 	}
 }
